@@ -159,6 +159,7 @@ def check(ctx):
     _fit_level(ctx, N)
     _support(ctx, N)
     _forwarding(ctx)
+    _initial_picks(ctx, N)
 
 
 def _fit_level(ctx, N):
@@ -395,10 +396,46 @@ def _support(ctx, N):
     ctx.no_shape_conflicts("Shape", "transform on held-out rows", I, 0, ctx.site(ctx.P.method(base, "transform")))
 
 
-def _forwarding(ctx):
+def _initial_picks(ctx, N):
+    """FPS-type selectors started from a list of picks: the picks are recorded like selections - stored data,
+    stored targets, indices and the counter (ref/selection_ref.py prefix_init)"""
+    P = ctx.P
+    for cq, pkg, axis, S in CLASSES:
+        cls = P.cls(cq)
+        if cls.name != "FPS":
+            continue  # PCov-FPS and Voronoi FPS document an integer or 'random' start only
+        for with_y in ((True, False) if (axis == 0 or "PCov" in cls.name) else (False,)):
+            cfg = f"{pkg}.{cls.name} initialize=[i0,i1] y={'yes' if with_y else 'no'}"
+            if "PCov" in cls.name and not with_y:
+                continue
+            I, st = ctx.interp(order=[("S", "<=", S)], assume=protocols.assume_default), State()
+            ctor = {"n_to_select": integer("S")}
+            if "PCov" in cls.name:
+                ctor["mixing"] = scalar("alpha", 0, 1, False, True)
+            o = ctx.construct(I, st, cls, **ctor)
+            i0, i1 = index("i0", S), index("i1", S)
+            st.heap[o.obj.id]["_axis"] = vconst(axis)
+            st.heap[o.obj.id]["initialize"] = I.mk_list([i0, i1])
+            X, y = arr("X", "N", "M"), arr("y", "N", "P")
+            yv = y if with_y else vconst(None)
+            nreq = integer("S")
+            ctx.call_method(I, st, o, "_init_greedy_search", X, yv, nreq)
+            stored_y = with_y and axis == 0
+            I2, s2 = ctx.interp(), State()
+            ref = ctx.call_func(I2, s2, "ref.selection_ref.prefix_init", X, yv if stored_y else vconst(None), i0, i1, nreq, axis, stored_y)
+            site = ctx.site(P.method(cls, "_init_greedy_search"))
+            ctx.compare("R-SLOT", f"{cfg}: X_selected_ holds the data of the initial picks in order", N, ctx.attr(st, o, "X_selected_"), ref.items[0], site, cfg)
+            if stored_y:
+                ctx.compare("R-SLOT", f"{cfg}: y_selected_ holds the targets of the initial picks in order", N, ctx.attr(st, o, "y_selected_"), ref.items[1], site, cfg)
+            ctx.compare("R-SLOT", f"{cfg}: selected_idx_ holds the initial picks in order", N, ctx.attr(st, o, "selected_idx_"), ref.items[2], site, cfg)
+            ctx.compare("R-ONCE", f"{cfg}: the counter equals the number of initial picks", N, ctx.attr(st, o, "n_selected_"), ref.items[3], site, cfg)
+
+
+def _forwarding(ctx, rule="R-FWD", classes=("FPS", "CUR", "PCovFPS", "PCovCUR"), only=None):
+    """every public wrapper hands every constructor parameter (or the ones in `only`) to the shared base class under its own name"""
     P = ctx.P
     for pkg in ("feature", "sample"):
-        for cname in ("FPS", "CUR", "PCovFPS", "PCovCUR"):
+        for cname in classes:
             cls = P.cls(f"skmatter.{pkg}_selection.{cname}")
             init = cls.methods.get("__init__")
             site = ctx.site(init) if init else cls.qual
@@ -412,12 +449,17 @@ def _forwarding(ctx):
             heap = st.heap[o.obj.id]
             bad = []
             for p in params:
+                if only is not None and p not in only:
+                    continue
                 v = heap.get(p)
                 if v is None or v.term != kwargs[p].term if isinstance(kwargs[p], V) else (v is None or not v.has_const or v.const != kwargs[p]):
                     bad.append(p)
-            ctx.ob("R-FWD", f"{pkg}.{cname} forwards every constructor parameter by name", not bad, f"parameters not stored under their own name: {bad}" if bad else f"{len(params)} parameters", site, pkg)
+            what = "every constructor parameter" if only is None else "/".join(p for p in params if p in only)
+            ctx.ob(rule, f"{pkg}.{cname} forwards {what} by name", not bad, f"parameters not stored under their own name: {bad}" if bad else f"{len(params) if only is None else len([p for p in params if p in only])} parameters", site, pkg)
             stv = heap.get("selection_type")
-            ctx.ob("R-FWD", f"{pkg}.{cname} passes selection_type='{pkg}'", stv is not None and stv.has_const and stv.const == pkg, f"selection_type = {stv!r}", site, pkg)
+            ctx.ob(rule, f"{pkg}.{cname} passes selection_type='{pkg}'", stv is not None and stv.has_const and stv.const == pkg, f"selection_type = {stv!r}", site, pkg)
+    if rule != "R-FWD":
+        return
     cls = P.cls("skmatter.sample_selection.VoronoiFPS")
     I, st = ctx.interp(), State()
     kw = {p: scalar(f"param_{p}") for p in ("n_trial_calculation", "full_fraction", "initialize", "n_to_select", "score_threshold", "progress_bar", "full", "random_state")}
